@@ -192,6 +192,16 @@ MUTANTS = [
  ("c18-use-len-form", "C18", "", "svg/elements.go", "\tif node.attrs[\"href\"] == \"\" { // nothing is referenced\n", "\tif len(node.attrs[\"href\"]) == 0 {\n"),
  ("c01-nesting-size-leq", "C01", "", "css/validation/validation.go", "\t\t\tif budget := maxNestedSelectorSize; exceedsSize(declarationPrelude, &budget) {\n", "\t\t\tif countTokens := func(l []Token) int { b := maxNestedSelectorSize + 1; exceedsSize(l, &b); return maxNestedSelectorSize + 1 - b }; !(countTokens(declarationPrelude) <= maxNestedSelectorSize) {\n"),
  ("c06-firsttoken-typeswitch", "C06", "", "css/parser/parser.go", "\tif _, isCurly := firstToken.(CurlyBracketsBlock); !IsLiteral(firstToken, \";\") && !isCurly {\n", "\tisCurly := false\n\tswitch firstToken.(type) {\n\tcase CurlyBracketsBlock:\n\t\tisCurly = true\n\t}\n\tif !IsLiteral(firstToken, \";\") && !isCurly {\n"),
+ # --- generic respellings of older anchors
+ ("c16-partition-switch-form", "C16", "", "html/document/stacking.go", "\t\tif context.zIndex < 0 {\n\t\t\tself.negativeZContexts = append(self.negativeZContexts, context)\n\t\t} else if context.zIndex == 0 {\n\t\t\tself.zeroZContexts = append(self.zeroZContexts, context)\n\t\t} else { // context.zIndex > 0\n\t\t\tself.positiveZContexts = append(self.positiveZContexts, context)\n\t\t}\n", "\t\tswitch z := context.zIndex; {\n\t\tcase z > 0:\n\t\t\tself.positiveZContexts = append(self.positiveZContexts, context)\n\t\tcase z < 0:\n\t\t\tself.negativeZContexts = append(self.negativeZContexts, context)\n\t\tdefault:\n\t\t\tself.zeroZContexts = append(self.zeroZContexts, context)\n\t\t}\n"),
+ ("c16-sort-greater-swapped", "C16", "", "html/document/stacking.go", "\t\treturn self.positiveZContexts[i].zIndex < self.positiveZContexts[j].zIndex\n", "\t\treturn self.positiveZContexts[j].zIndex > self.positiveZContexts[i].zIndex\n"),
+ ("c18-viewbox-scale-else-form", "C18", "", "svg/svg.go", "\tif viewboxWidth != 0 {\n\t\tscaleX = width / viewboxWidth\n\t}\n", "\tif viewboxWidth == 0 {\n\t\tscaleX = 1\n\t} else {\n\t\tscaleX = width / viewboxWidth\n\t}\n"),
+ ("c03-less-negated-form", "C03", "", "html/tree/style.go", "(w.specificity.Less(other.specificity) || w.specificity == other.specificity))", "!other.specificity.Less(w.specificity))"),
+ ("c04-pt-ratio-4-3", "C04", "", "css/properties/datas.go", "Pt: 1. / 0.75,", "Pt: 4. / 3.,"),
+ ("c19-cyclic-mod-if-form", "C19", "", "css/counters/counters.go", "\tindex := ((value-1)%L + L) % L\n", "\tindex := (value - 1) % L\n\tif index < 0 {\n\t\tindex += L\n\t}\n"),
+ ("c17-invert-neg-det", "C17", "", "matrix/matrix.go", "T.C = -T.C / det", "T.C = T.C / -det"),
+ ("c20-pairs-reordered", "C20", "", "css/parser/serialize.go", "for _, a := range []string{\"unicode-range\", \".\", \"+\"} {", "for _, a := range []string{\"+\", \"unicode-range\", \".\"} {"),
+ ("c01-loop-neq-form", "C01", "C01.R5", "html/layout/layout.go", "for loop := 0; loop < maxLoops; loop += 1 {", "for loop := 0; loop != maxLoops; loop++ {"),
 ]
 
 def main():
